@@ -134,6 +134,20 @@ Theorem C09_sts_store_then_apply :
 Proof. exact sts_store_then_apply. Qed.
 Print Assumptions C09_sts_store_then_apply.
 
+(* ... and the forced verification reaches the TLS layer: SocketDriver.connect() = take the next server
+   (policy applied), fill in the attempt number keeping every other field, start TLS if ssl is on or verification is
+   forced, choose `verify`.  For every configured list, store, clock, attempt counter and TLS settings: a connection
+   to a host with an unexpired stored policy goes to the policy's port, over TLS, with the certificate verified. *)
+Theorem C09_sts_reaches_tls :
+  forall conf now n m drv ssl cv fp ca c, snd (connectS conf now n m drv ssl cv fp ca) = Ok c ->
+  forall pol port duration,
+    dict_get (sv_host (cn_server c)) (policies n) = Some pol -> parseStsPolicy2 pol true = Some (port, duration) ->
+    unexpired now n (sv_host (cn_server c)) duration ->
+    sv_port (cn_server c) = port /\ sv_force (cn_server c) = true /\ cn_tls c = true /\
+    (cn_verify c = true \/ fp = true \/ ca = true).
+Proof. exact sts_reaches_tls. Qed.
+Print Assumptions C09_sts_reaches_tls.
+
 (* forced verification means verification *)
 Theorem C09_force_implies_verify :
   forall conf_verify fp ca, verify_choice true conf_verify fp ca = true \/ fp = true \/ ca = true.
